@@ -21,97 +21,103 @@ META = {
 def adjustments(R, rep):
     F = R.F
     pre = R.require("prepass")
-    tb = R.terms(pre, 0)
-    calls = [(i, t) for i, t in pre.calls() if "AcquisitionLedger::" in t["callee"] and t["callee"] in F.bodies and
-             any(w[0].id == t["callee"] for w in R.field_writes(LOT, "cost_offset"))]
+    rg = R.region(pre)
+    writers = {w[0].id for w in R.field_writes(LOT, "cost_offset") if w[2] != "construct"}
+    calls = [it for it in rg.items if it["term"]["callee"] in writers and "AcquisitionLedger::" in it["term"]["callee"]]
     if not calls:
-        rep.unresolved("R1", "APPORTION", "pre-pass does not call a method that writes lot.cost_offset")
+        rep.unresolved("R1", "APPORTION", "the pre-pass (with its helpers) does not call a method that writes lot.cost_offset")
         return None
-    appo = calls[0][1]["callee"]
+    appo = calls[0]["term"]["callee"]
     seen = {}
-    for i, t in calls:
-        adj = tb.operand(t["args"][1])
+    for it in calls:
+        adj = it["tb"].operand(it["term"]["args"][1])
         variants = {x[2] for x in subterms(adj) if isinstance(x, tuple) and len(x) == 3 and x[0] == "dc"}
         for v in variants:
-            seen.setdefault(v, []).append((i, t, adj))
-    # capital return
+            seen.setdefault(v, []).append((it, adj))
     cr = seen.get("CapReturn", [])
     ok = False
     why = f"capital-return adjustment sites: {len(cr)}"
     if len(cr) == 1:
-        adj = cr[0][2]
-        # −(total_value − fees) == fees − total_value in normal form: + (fees, neg total_value)
+        adj = cr[0][1]
         if isinstance(adj, tuple) and adj[0] == "+" and len(adj[1]) == 2:
             pos = [x for x in adj[1] if not (isinstance(x, tuple) and x[0] == "neg")]
             neg = [x[1] for x in adj[1] if isinstance(x, tuple) and x[0] == "neg"]
             ok = len(pos) == 1 and len(neg) == 1 and show(pos[0]).endswith("as CapReturn).fees") and show(neg[0]).endswith("as CapReturn).total_value")
         why = "capital return lowers cost by (total_value − fees)" if ok else f"capital-return adjustment is {show(adj)[:80]}, expected −(total_value − fees)"
-    rep.ob("R1", "capreturn:−(total−fees)", ok, why, pre.loc(cr[0][1]["sp"]) if cr else pre.loc(), key="R1:capreturn:amount")
+    site = cr[0][0]["body"].loc(cr[0][0]["term"]["sp"]) if cr else pre.loc()
+    rep.ob("R1", "capreturn:−(total−fees)", ok, why, site, key="R1:capreturn:amount")
     ac = seen.get("Accumulation", [])
-    ok2 = len(ac) == 1 and show(ac[0][2]).endswith("as Accumulation).total_value") and not (isinstance(ac[0][2], tuple) and ac[0][2][0] in ("neg", "+"))
+    ok2 = len(ac) == 1 and show(ac[0][1]).endswith("as Accumulation).total_value") and not (isinstance(ac[0][1], tuple) and ac[0][1][0] in ("neg", "+"))
     rep.ob("R1", "accumulation:+total_value", ok2, "accumulation raises cost by total_value" if ok2 else
-           f"accumulation adjustment is {[show(a[2])[:60] for a in ac]}, expected +total_value", pre.loc(ac[0][1]["sp"]) if ac else pre.loc(),
-           key="R1:accumulation:amount")
+           f"accumulation adjustment is {[show(a[1])[:60] for a in ac]}, expected +total_value",
+           ac[0][0]["body"].loc(ac[0][0]["term"]["sp"]) if ac else pre.loc(), key="R1:accumulation:amount")
     others = set(seen) - {"CapReturn", "Accumulation"}
     rep.ob("R1", "apportion:only-two-events", not others, "only capital returns and accumulations adjust cost" if not others else
            f"cost is also adjusted for {sorted(others)}", pre.loc(), key="R1:apportion:other-events")
-    # R2 guard
+    # R2 guard (in the body where the call lives)
+    basis_fn = None
     if len(cr) == 1:
-        i, t, adj = cr[0]
+        it, adj = cr[0]
+        hb, i, t, tb = it["body"], it["bb"], it["term"], it["tb"]
         net = mk_neg(adj)
         ok3 = False
         gblock = None
-        for cond, val, s in guards_of(pre, tb, i):
+        for cond, val, s in guards_of(hb, tb, i):
             if isinstance(cond, tuple) and cond[0] == "cmp":
                 lhs, rhs = cond[2], cond[3]
                 basis = lambda x: isinstance(x, tuple) and x[0] == "call" and "AcquisitionLedger::" in x[1] and "cost" in x[1]
-                if cond[1] == "Gt" and lhs == net and basis(rhs) and not truth(val):
+                hit = (cond[1] == "Gt" and lhs == net and basis(rhs) and not truth(val)) or \
+                      (cond[1] == "Le" and lhs == net and basis(rhs) and truth(val)) or \
+                      (cond[1] == "Lt" and rhs == net and basis(lhs) and not truth(val)) or \
+                      (cond[1] == "Ge" and rhs == net and basis(lhs) and truth(val))
+                if hit:
                     ok3, gblock = True, s
-                if cond[1] == "Le" and lhs == net and basis(rhs) and truth(val):
-                    ok3, gblock = True, s
-                if cond[1] == "Lt" and rhs == net and basis(lhs) and not truth(val):
-                    ok3, gblock = True, s
+                    bt = rhs if basis(rhs) else lhs
+                    if bt[1] in F.bodies:
+                        basis_fn = F.bodies[bt[1]]
         rep.ob("R2", "capreturn:guard", ok3,
                "the adjustment is applied only if the net return does not exceed the adjusted cost of the shares held" if ok3 else
                "the capital-return adjustment is not dominated by `net > total adjusted cost → Err`: a leg or holding can get negative allowable cost",
-               pre.loc(t["sp"]), key="R2:capreturn:guard")
+               hb.loc(t["sp"]), key="R2:capreturn:guard")
         if gblock is not None:
-            sw = pre.term(gblock)
-            err_t = sw["otherwise"]
-            arm = {x for x in pre.reach_from(err_t) if pre.dominates(err_t, x)}
-            txts = []
-            args = []
-            for fc in format_calls(F, pre, tb):
+            sw = hb.term(gblock)
+            tgts = [x for x in hb.succ(gblock) if not hb.edge_dominates((gblock, x), i)]
+            arm = set()
+            for err_t in tgts:
+                arm |= {x for x in hb.reach_from(err_t) if hb.dominates(err_t, x)}
+            txts, args = [], []
+            for fc in format_calls(F, hb, tb):
                 if fc["bb"] in arm and fc["parts"]:
                     txts.append(template_text(fc["parts"]))
                     args += [show(p[1]) for p in fc["parts"] if p[0] == "arg"]
             txt = " ".join(txts)
             okm = "S122" in txt and any(a.endswith(".ticker") for a in args) and any(a.endswith(".date") for a in args)
             rep.ob("R2", "capreturn:error-text", okm, "the refusal names the ticker and date and cites TCGA92 s122" if okm else
-                   f"error text `{txt[:80]}` with args {args[:4]} lacks ticker/date/S122", pre.loc(), key="R2:capreturn:error-text")
+                   f"error text `{txt[:80]}` with args {args[:4]} lacks ticker/date/S122", hb.loc(), key="R2:capreturn:error-text")
     # R2b: the lots whose cost makes up the guard's basis are the lots that receive the adjustment (held > 0 in both)
-    basis_fn = None
-    if len(cr) == 1:
-        for cond, val, s_ in guards_of(pre, tb, cr[0][0]):
-            if isinstance(cond, tuple) and cond[0] == "cmp":
-                for side in (cond[2], cond[3]):
-                    if isinstance(side, tuple) and side[0] == "call" and "AcquisitionLedger::" in side[1] and side[1] in F.bodies:
-                        basis_fn = F.bodies[side[1]]
     if basis_fn is not None and appo in F.bodies:
         def held_pred(b):
-            """comparison operators applied to held_for_adjustment(..) vs ZERO in b and its closures"""
+            """positive-form comparison of held_for_adjustment(..) with ZERO under which the lot is counted / adjusted"""
             ops = set()
             for x in [b] + [F.bodies[c] for c in F.children(b.id)]:
                 xt = Terms(F, x, inline_depth=0)
-                conds = [xt.operand(x.term(s_)["discr"]) for s_ in x.reachable() if x.term(s_)["k"] == "switch"] + [xt.local(0)]
-                for cnd in conds:
-                    for y in subterms(cnd):
-                        if isinstance(y, tuple) and y and y[0] == "cmp" and y[3] == ("const", "Decimal::ZERO") and \
-                                any(isinstance(z, tuple) and z and z[0] == "call" and "held" in z[1] for z in subterms(y[2])):
-                            ops.add(y[1])
+                # (a) guards dominating the effect (accumulation / cost_offset write)
+                for j, u in x.calls():
+                    k = is_decimal_arith_assign(u["callee"])
+                    if k != "AddAssign":
+                        continue
+                    for cnd, val, sb in guards_of(x, xt, j):
+                        if isinstance(cnd, tuple) and cnd and cnd[0] == "cmp" and cnd[3] == ("const", "Decimal::ZERO") and \
+                                any(isinstance(z, tuple) and z and z[0] == "call" and "held" in z[1] for z in subterms(cnd[2])):
+                            ops.add(cnd[1] if truth(val) else NEGOP[cnd[1]])
+                # (b) filter closures returning the comparison
+                r0 = xt.local(0)
+                if x.kind == "closure" and isinstance(r0, tuple) and r0 and r0[0] == "cmp" and r0[3] == ("const", "Decimal::ZERO") and \
+                        any(isinstance(z, tuple) and z and z[0] == "call" and "held" in z[1] for z in subterms(r0[2])):
+                    ops.add(r0[1])
             return ops
         pb, pa = held_pred(basis_fn), held_pred(F.bodies[appo])
-        ok = pb == {"Gt"} and "Gt" in pa
+        ok = pb == {"Gt"} and pa == {"Gt"}
         rep.ob("R2", "capreturn:basis-lots=adjusted-lots", ok,
                "the guard's basis counts exactly the lots with shares still held (> 0), the same lots that receive the adjustment" if ok else
                f"the guard's basis selects lots with held {sorted(pb)} 0 but the adjustment is spread over lots with held {sorted(pa)} 0: "
@@ -120,45 +126,51 @@ def adjustments(R, rep):
     return appo
 
 
+NEGOP = {"Gt": "Le", "Le": "Gt", "Lt": "Ge", "Ge": "Lt", "Eq": "Ne", "Ne": "Eq"}
+
+
 def order_and_who(R, rep, appo):
     F = R.F
     pre = R.require("prepass")
-    # R3: adjustment loop precedes the add_acquisition loop within a date
-    adds = [i for i, t in pre.calls() if t["callee"].endswith("AcquisitionLedger::add_acquisition")]
-    adjs = [i for i, t in pre.calls() if t["callee"] == appo]
+    rg = R.region(pre)
+    adds = {it["root_bb"] for it in rg.calls(lambda c: c.endswith("AcquisitionLedger::add_acquisition"))}
+    adjs = {it["root_bb"] for it in rg.calls(lambda c: c == appo)}
     if adds and adjs:
-        outer = max((bl for h, bl in pre.loops() if adds[0] in bl), key=len)
-        outer_h = [h for h, bl in pre.loops() if bl == outer][0]
+        loops_with = [bl for h, bl in pre.loops() if any(x in bl for x in adds)]
+        outer = max(loops_with, key=len) if loops_with else None
+        if outer is None:
+            rep.unresolved("R3", "prepass-loop", "acquisitions are not added inside a loop of the pre-pass")
+        else:
+            outer_h = [h for h, bl in pre.loops() if bl == outer][0]
 
-        def inner(bb):
-            ls = [(h, bl) for h, bl in pre.loops() if bb in bl and bl < outer]
-            return min(ls, key=lambda x: len(x[1]))[0] if ls else None
-        ha, hb = inner(adjs[0]), inner(adds[0])
-        ok = ha is not None and hb is not None and ha != hb and hb in pre.reach_from(ha, removed_blocks=(outer_h,)) \
-            and ha not in pre.reach_from(hb, removed_blocks=(outer_h,))
-        rep.ob("R3", "prepass:adjust≺add-buys", ok, "within a date, cost adjustments are applied before that date's acquisitions enter the ledger" if ok else
-               "the day's acquisitions are added before (or interleaved with) the cost adjustments: an event would also adjust shares bought the same day or later",
-               pre.loc(), key="R3:prepass:order")
+            def anchor(bb):
+                ls = [(h, bl) for h, bl in pre.loops() if bb in bl and bl < outer]
+                return min(ls, key=lambda x: len(x[1]))[0] if ls else bb
+            ok = True
+            for x in adjs:
+                for y in adds:
+                    ha, hb = anchor(x), anchor(y)
+                    ok = ok and ha != hb and hb in pre.reach_from(ha, removed_blocks=(outer_h,)) and ha not in pre.reach_from(hb, removed_blocks=(outer_h,))
+            rep.ob("R3", "prepass:adjust≺add-buys", ok, "within a date, cost adjustments are applied before that date's acquisitions enter the ledger" if ok else
+                   "the day's acquisitions are added before (or interleaved with) the cost adjustments: an event would also adjust shares bought the same day or later",
+                   pre.loc(), key="R3:prepass:order")
     else:
         rep.unresolved("R3", "prepass-phases", "pre-pass lacks add_acquisition or the apportioning call")
-    # R4 WHO
     ws = [w for w in R.field_writes(LOT, "cost_offset") if w[2] != "construct"]
     writers = {w[0].id for w in ws}
     rep.ob("R4", "cost_offset:writers", writers == {appo}, f"lot.cost_offset is written only by {appo.split('::')[-1]}" if writers == {appo} else
            f"lot.cost_offset is written by {sorted(x.split('::', 1)[-1] for x in writers)}", ws[0][3] if ws else "", key="R4:cost_offset:writers")
     callers = {(b.parent or b.id) for b, i, t in F.call_sites(lambda c: c == appo)}
-    rep.ob("R4", "apportion:callers", callers == {pre.id}, "the apportioning method is called only from the cost pre-pass" if callers == {pre.id} else
+    ok_callers = bool(callers) and callers <= set(rg.bodies)
+    rep.ob("R4", "apportion:callers", ok_callers, "the apportioning method is called only from the cost pre-pass (and its helpers)" if ok_callers else
            f"apportioning is called from {sorted(x.split('::', 1)[-1] for x in callers)}", "", key="R4:apportion:callers")
-    # apportionment formula: adjustment × (held / total_held), guarded by held > 0
     ab = F.bodies[appo]
-    atb = R.terms(ab, 0)
     for w in ws:
         rhs = w[4]
         okf = isinstance(rhs, tuple) and rhs[0] == "*" and any(x == ("param", 1, ab.local_name(2)) for x in rhs[1]) and \
             any(isinstance(x, tuple) and x[0] == "/" for x in rhs[1])
         rep.ob("R4", "apportion:formula", okf, "each lot receives adjustment × (its held shares ÷ total held)" if okf else
                f"apportioned amount is {show(rhs)[:80]}", w[3], key="R4:apportion:formula")
-    # constructor passes the offset through unchanged
     for w in R.field_writes(LOT, "cost_offset"):
         if w[2] == "construct":
             okc = isinstance(w[4], tuple) and w[4][0] == "param"
